@@ -484,3 +484,27 @@ CONTRACTS = [
     C("is_lna_enabled", "rf24:RF24.is_lna_enabled.getter", {}, R + "ref_is_lna_enabled"),
     C("address", "rf24:RF24.address", {"index": A}, R + "ref_address"),
 ]
+
+
+# ---- getters that re-read the radio: "every getter returns the value in effect" also when the
+#      cached view is STALE (the documented case: a non-plus radio after start_carrier_wave(), whose
+#      registers were written behind the shadows' back until the next `with`).  Only the getters
+#      whose code reads the register are claimed this way; the others return the cached value by
+#      design and are covered from Inv states above.
+
+def hw_only(self):
+    """the radio is in a legal state and the shadows are well-formed, but NOT assumed current"""
+    from spec.rf24_state import hw_ranges
+    hw = self._spi.hw
+    return hw_ranges(hw) and self._ce_pin.hw is hw and self._channel <= 125
+
+
+FRESH = ["dynamic_payloads", "arc", "ard", "auto_ack", "ack", "allow_ask_no_ack", "data_rate", "channel", "crc", "power", "pa_level",
+         "address_length"]
+
+
+def _fresh(name):
+    return Contract("C03.%s.get.stale_cache" % name, "rf24:RF24.%s.getter" % name, {"self": rf24_schema()},
+                    requires=[R + "hw_only"], refines=R + "ref_%s_get" % name, view="spec.rf24_state:view_hw",
+                    policy=dict(PRIMS), props=["C03"])
+CONTRACTS += [_fresh(n) for n in FRESH]
